@@ -418,6 +418,7 @@ func (p *pool) evalLayer(slot **worker, blob []byte, timeout time.Duration, conc
 	return res
 }
 
+// isPseudo: the calls that run several scanners at once (only for layers marked concurrent).
 func isPseudo(name string) bool { return strings.HasPrefix(name, "concurrent/") }
 
 func (p *pool) isolate(i int, blob []byte, timeout time.Duration) string {
